@@ -192,6 +192,11 @@ func (f Frame) payloadOffset() int {
 }
 
 func (f *Frame) setPayloadLength(n int) *Frame {
+	// A pooled frame keeps the length of its previous use, which can be shorter than the extended length written below.
+	if len(*f) < frameMaxHeaderLength {
+		*f = util.ExtendSlice(*f, frameMaxHeaderLength)
+	}
+
 	(*f)[1] &= (1 << 7)
 
 	if n > (1<<16 - 1) {
